@@ -1,6 +1,6 @@
 (* Props/C10.v — C10: repeated tables with unchanged version disturb nothing. *)
 From TS Require Import Base.Res Model.Timestamp Model.Packet Model.PesFilter Model.Crc Model.Psi Model.Demux Model.DemuxObs
-  Proofs.SectionProofs Proofs.TableProofs Proofs.Witnesses.
+  Spec.Dispatch Proofs.SectionProofs Proofs.DispatchProofs Proofs.TableProofs Proofs.RoutingProofs Proofs.Witnesses.
 Open Scope N_scope.
 
 (* the start of a section whose version_number equals the one the chain remembers emits no event, leaves the
@@ -23,6 +23,28 @@ Theorem C10_skip_continues : forall fz (IS CX EV : Type) inner xs (c : chain IS)
   run_continues fz IS CX EV inner c cx xs = Ok (c, cx, []).
 Proof. exact c10_skip_continues. Qed.
 Print Assumptions C10_skip_continues.
+
+(* ---- end to end: the packets of a repeated program map, dispatched by the real loop against any table ----
+   the start packet of a repetition (pointer_field 0, version equal to the remembered one) and each of its continuation
+   packets make no request, queue no change and reach no table processor; the only event is the packet marker of the map
+   handler's wrapper; the table is as before except for the map PID's own entry (same handler, chain now skipping): every
+   elementary-stream consumer keeps its state, whatever PES packet it is in the middle of *)
+Theorem C10_repetition_start_packet : forall policy scripts deep fs cx i pk P s (c : chain pmt_state) poff next v,
+  cx_changes cx = nil -> pkt_pid pk = Ok P -> filters_get fs P = Some (HPmt s c) -> unflagged pk ->
+  pkt_payload pk = Ok (Some (poff, 0 :: next)) -> pkt_payload_unit_start_indicator pk = Ok true ->
+  accepted_start (hdr_of next) next -> tsh_version (skipn 3 next) = Ok v -> dd_last_version c = Some v ->
+  spec_packet policy scripts false deep fs cx (i, pk) =
+  Ok (set_slot fs P (Some (HPmt s (skipped pmt_state c v))), cx, (EvPacket s i nil :: nil)).
+Proof. exact repetition_start_packet. Qed.
+Print Assumptions C10_repetition_start_packet.
+
+Theorem C10_repetition_continuation_packet : forall policy scripts deep fs cx i pk P s (c : chain pmt_state) poff payload,
+  cx_changes cx = nil -> pkt_pid pk = Ok P -> filters_get fs P = Some (HPmt s c) -> unflagged pk ->
+  pkt_payload pk = Ok (Some (poff, payload)) -> pkt_payload_unit_start_indicator pk = Ok false ->
+  sp_ignore_rest c = false -> dd_ignore_rest c = true ->
+  spec_packet policy scripts false deep fs cx (i, pk) = Ok (set_slot fs P (Some (HPmt s c)), cx, (EvPacket s i nil :: nil)).
+Proof. exact repetition_continuation_packet. Qed.
+Print Assumptions C10_repetition_continuation_packet.
 
 (* KNOWN FINDING F8 (refutation witness): after a PAT version change re-lists a program, a repetition of its
    unchanged PMT is applied again (request with serial 5 below), because the PMT handler instance — and with
